@@ -273,7 +273,7 @@ def run(ctx):
     ]
     # 2. implementation -> specification (driver started first: it runs while TLC works on step 1)
     drv = ctx.build_go("c15")
-    n = ctx.pick(30, 400)
+    n = ctx.pick(30, 800)
     tp = ctx.path("c15.ndjson")
     join = start_driver(ctx, drv, ["-seed", str(ctx.seed), "-n", str(n), "-par", str(ctx.pick(10, 14)), "-out", tp, "-root", ctx.path("drv", "x")],
                         ctx.pick(400, 1500))
@@ -284,8 +284,10 @@ def run(ctx):
     results = join()
     drop_failed(ctx, results)
     L, scs, viols = validate(ctx, tp)
-    account(ctx, scs)
+    vac = account(ctx, scs)
     report(ctx, L, scs, viols, "C15")
+    if vac and not ctx.violations:
+        raise vlib.MachineryError(vac)
     if getattr(ctx, "selftest", False):
         def m1(L):
             for d in L:
@@ -358,4 +360,5 @@ def account(ctx, scs):
         need = ["C15.ev.started", "C15.ev.completed", "C15.ev.stopped", "C15.gap"]
         miss = [x for x in need if ob[x] == 0]
         if miss or classes["tp=udp"] == 0 or classes["tp=http"] == 0:
-            raise vlib.MachineryError("vacuous run: obligations never exercised: %s (classes %s)" % (miss, dict(classes)))
+            return "vacuous run: obligations never exercised: %s (classes %s)" % (miss, dict(classes))
+    return None
